@@ -304,6 +304,12 @@ func c13Base(r *Rng) (rootA, rootB, t *EntitySpec, p *ProfileSpec) {
 	}
 	t.Validity = valRelative(r)
 	t.Exts = genExts(r, 3, true)
+	if r.Chance(1, 6) {
+		// a large configuration: everything the classes edit comes after many KiB of content
+		t.Exts = append([]ExtSpec{bulkExt(r)}, t.Exts...)
+	} else if r.Chance(1, 12) {
+		t.Bulk, t.Style = r.Range(5, 120), r.Intn(40)
+	}
 	if r.Chance(1, 5) {
 		t.Manip = genManip(r)
 	}
